@@ -430,8 +430,19 @@ static object_t *caller_ob (void)
   return c;
 }
 
-static void cmd_call (const char *origin, const char *oid, const char *fn)
+static void cmd_call (const char *origin, const char *oid, const char *fn, const char *argstr)
 {
+  long args[16];
+  int nargs = 0;
+  if (argstr)
+    for (const char *p = argstr; *p && nargs < 16;)
+      {
+        args[nargs++] = strtol (p, (char **) &p, 10);
+        if (*p == ',')
+          p++;
+        else
+          break;
+      }
   object_t *ob = vh_obj (oid);
   char res[1024] = "";
   volatile int rc = 0;		/* 0 value, 1 error, 2 refused / not there */
@@ -462,7 +473,9 @@ static void cmd_call (const char *origin, const char *oid, const char *fn)
             copy_and_push_string (fn);	/* malloc'ed copy: other pointer, same text */
           else
             share_and_push_string (sfn);	/* the shared string itself */
-          ret = apply (intern ("do_call"), c, 2, ORIGIN_DRIVER);
+          for (int i = 0; i < nargs; i++)
+            push_number (args[i]);
+          ret = apply (intern ("do_call"), c, 2 + nargs, ORIGIN_DRIVER);
           if (!ret || (ret->type == T_NUMBER && ret->u.number == 0))
             rc = 2;
           else
@@ -470,7 +483,9 @@ static void cmd_call (const char *origin, const char *oid, const char *fn)
         }
       else if (!strcmp (origin, "drv") || !strcmp (origin, "cot"))
         {
-          ret = apply (sfn, ob, 0, origin[0] == 'd' ? ORIGIN_DRIVER : ORIGIN_CALL_OUT);
+          for (int i = 0; i < nargs; i++)
+            push_number (args[i]);
+          ret = apply (sfn, ob, nargs, origin[0] == 'd' ? ORIGIN_DRIVER : ORIGIN_CALL_OUT);
           if (!ret)
             rc = 2;
           else
@@ -727,9 +742,9 @@ static int c07_cmd (char *line)
       cmd_call_targets (tok[1], tok[2], tok[3]);
       return 1;
     }
-  if (!strcmp (tok[0], "call") && n == 4)
+  if (!strcmp (tok[0], "call") && (n == 4 || n == 5))
     {
-      cmd_call (tok[1], tok[2], tok[3]);
+      cmd_call (tok[1], tok[2], tok[3], n == 5 ? tok[4] : 0);
       return 1;
     }
   if (!strcmp (tok[0], "cold") && n == 1)
